@@ -467,11 +467,21 @@ Definition run_pair_spec (x : xval) : xval :=
   | None => bad_input
   end.
 
-(** "proto.burst": n concurrent streams on one HTTP/2 connection.  The handler table of the run is
+(** "proto.answered": is every request of a history answered on HTTP/1.1 / on HTTP/2?  Only used for the replayed
+    witness of the known finding h1-unread-request-body (C08's subject: a request body that no handler reads stays on
+    the HTTP/1 connection and is parsed as the next request): TODAY's behaviour is (no, yes); the specification is (yes, yes). *)
+Definition run_answered_today (x : xval) : xval :=
+  match d_case x with Some _ => XL [XN 0; XN 1] | None => bad_input end.
+Definition run_answered_spec (x : xval) : xval :=
+  match d_case x with Some _ => XL [XN 1; XN 1] | None => bad_input end.
+
+(** "proto.burst": n concurrent streams on one HTTP/2 connection ("proto.burst1": n concurrent HTTP/1.1 connections
+    over TLS — the tasks are the connections', the shared state is the same).  The handler table of the run is
     the list of exchanges itself: request i is answered by layer-4 response i (what the real host answers to
     that request alone); [cacheable i] says whether layer 4 stores it.  The model runs the two-block tasks in the
-    given schedule over ONE shared cache and sends every reply through the HTTP/2 arm.
-    input (L checked cfg pkg_ops (L [alt]) err416 (L exchange ...) (L (L sid path cacheable) ...) (L sid ...))
+    given schedule over ONE shared cache and sends every reply through the protocol's arm.  [class] is what the
+    cache distinguishes: the path and the Accept-Encoding class.
+    input (L checked cfg pkg_ops (L [alt]) err416 (L exchange ...) (L (L sid class cacheable) ...) (L sid ...))
     output (L (L sid wire) ...) sorted by stream id *)
 Definition burst_compute (tbl : list (N * resp * bool)) (_ : unit) (r : request) (_ : bool) : fat * unit * list bytes :=
   match find (fun e => fst (fst e) =? rq_addr r) tbl with
@@ -489,7 +499,7 @@ Definition d_stream (x : xval) : option (N * bytes * bool) :=
   | XL [XN sid; XB path; c] => option_map (fun c' => (sid, path, c')) (d_bool c)
   | _ => None
   end.
-Definition run_burst (x : xval) : xval :=
+Definition run_burst (p : proto) (x : xval) : xval :=
   match x, d_case x with
   | XL [_; _; _; _; _; _; ss; sc], Some (checked, ops, alt, e416, exs) =>
       match d_list d_stream ss, d_list d_N sc with
@@ -506,7 +516,7 @@ Definition run_burst (x : xval) : xval :=
           let wires := map (fun '(sid, r0, rp) =>
                           (sid, match exof sid with
                                 | Some e => x_outcome x_wreply
-                                              (send checked (fun _ => e416) (pkg_menu ops) H2 true alt (ex_method e)
+                                              (send checked (fun _ => e416) (pkg_menu ops) p true alt (ex_method e)
                                                     (sd_of (ex_path_ok e) (ex_range e))
                                                     (mkResp (rs_version (ex_l4 e)) (rp_status rp) (rp_headers rp) (rp_body rp)))
                                 | None => bad_input
@@ -516,13 +526,13 @@ Definition run_burst (x : xval) : xval :=
       end
   | _, _ => bad_input
   end.
-(** spec component of "proto.burst": every stream gets the answer of its own request alone *)
-Definition run_burst_spec (x : xval) : xval :=
+(** spec component of "proto.burst" and model of "proto.alone": every stream gets the answer of its own request alone *)
+Definition run_burst_spec (p : proto) (x : xval) : xval :=
   match x, d_case x with
   | XL [_; _; _; _; _; _; ss; _], Some (checked, ops, alt, e416, exs) =>
       match d_list d_stream ss with
       | Some strs =>
-          let wires := map (fun '((sid, _, _), e) => (sid, x_outcome x_wreply (send_ex checked ops alt e416 H2 true e)))
+          let wires := map (fun '((sid, _, _), e) => (sid, x_outcome x_wreply (send_ex checked ops alt e416 p true e)))
                            (combine strs exs) in
           XL (map (fun o => XL [XN (fst o); snd o]) (fold_right insert_by_sid [] wires))
       | None => bad_input
@@ -533,5 +543,11 @@ Definition run_burst_spec (x : xval) : xval :=
 Definition protocols_table : list (bytes * (xval -> xval)) :=
   [ (B "proto.pair", run_pair);
     (B "proto.pair_spec", run_pair_spec);
-    (B "proto.burst", run_burst);
-    (B "proto.burst_spec", run_burst_spec) ].
+    (B "proto.answered", run_answered_today);
+    (B "proto.answered_spec", run_answered_spec);
+    (B "proto.burst", run_burst H2);
+    (B "proto.burst_spec", run_burst_spec H2);
+    (B "proto.alone", run_burst_spec H2);
+    (B "proto.burst1", run_burst H1);
+    (B "proto.burst1_spec", run_burst_spec H1);
+    (B "proto.alone1", run_burst_spec H1) ].
